@@ -156,6 +156,22 @@ Definition user_buf_in_flight (flag : bool) (buf : list byte) (nelems xsz : Z) :
 Definition user_buf_after_exit (flag : bool) (buf : list byte) (nelems xsz : Z) : list byte :=
   if flag then in_swapn buf nelems xsz else buf.
 
+(* the caller's buffer datatype as ncmpii_buftype_decode / ncmpii_dtype_decode see it: bufcount units of a type holding
+   bt_per primitive elements each (predefined type: 1; MPI_Type_contiguous(k, elem): k; nested: the product);
+   bt_contig = iscontig_of_ptypes (false as soon as a vector / indexed / subarray combiner occurs, even without gaps) *)
+Record btype := mkbt { bt_count : Z; bt_per : Z; bt_contig : bool }.
+Definition bt_bnelems (bt : btype) : Z := bt_count bt * bt_per bt.          (* bnelems: primitive elements *)
+(* `nelems`, the count handed to MPI_File_write by put_varm: bufcount (units of buftype) when the caller's buffer is the
+   I/O buffer, the element count when a packed xbuf is written *)
+Definition put_mpi_count (xbuf_buf : bool) (bt : btype) : Z := if xbuf_buf then bt_count bt else bt_bnelems bt.
+(* the caller's buffer after a blocking put: swapped over bnelems before the write, swapped back over bnelems after it
+   (`ncmpii_in_swapn(buf, bnelems, varp->xsz)` both times) *)
+Definition put_blocking_buffer (flag : bool) (bt : btype) (buf : list byte) (xsz : Z) : list byte :=
+  user_buf_after_exit flag (user_buf_in_flight flag buf (bt_bnelems bt) xsz) (bt_bnelems bt) xsz.
+(* NOT the library: the swap-back running over the MPI count instead (kept to state what the theorem excludes) *)
+Definition put_blocking_buffer_mpi_count (flag : bool) (bt : btype) (buf : list byte) (xsz : Z) : list byte :=
+  user_buf_after_exit flag (user_buf_in_flight flag buf (bt_bnelems bt) xsz) (put_mpi_count true bt) xsz.
+
 (* the bytes handed to MPI-IO when the buffer is used directly *)
 Definition xbuf_direct (nswap : bool) (buf : list byte) (nelems xsz : Z) : list byte :=
   if nswap then in_swapn buf nelems xsz else buf.
